@@ -39,3 +39,19 @@ pub open spec fn spec_from_u32(n: u32) -> Option<char> {
 pub assume_specification [std::char::from_u32] (n: u32) -> (r: Option<char>)
     ensures r == spec_from_u32(n);
 
+// further ASCII classification methods of char / u8 (so that code using them stays within the accepted subset)
+pub open spec fn spec_alpha(c: char) -> bool { ('a' <= c && c <= 'z') || ('A' <= c && c <= 'Z') }
+pub assume_specification [char::is_ascii_alphabetic] (c: &char) -> (r: bool)
+    ensures r == spec_alpha(*c);
+pub assume_specification [char::is_ascii_digit] (c: &char) -> (r: bool)
+    ensures r == ('0' <= *c && *c <= '9');
+pub assume_specification [char::is_ascii_hexdigit] (c: &char) -> (r: bool)
+    ensures r == (('0' <= *c && *c <= '9') || ('a' <= *c && *c <= 'f') || ('A' <= *c && *c <= 'F'));
+pub assume_specification [char::is_ascii_uppercase] (c: &char) -> (r: bool)
+    ensures r == ('A' <= *c && *c <= 'Z');
+pub assume_specification [char::is_ascii_lowercase] (c: &char) -> (r: bool)
+    ensures r == ('a' <= *c && *c <= 'z');
+pub assume_specification [char::is_ascii] (c: &char) -> (r: bool)
+    ensures r == ((*c as u32) < 128);
+pub assume_specification [char::is_ascii_whitespace] (c: &char) -> (r: bool)
+    ensures r == (*c == ' ' || *c == '\t' || *c == '\n' || *c == '\x0C' || *c == '\r');
